@@ -39,7 +39,7 @@ def exRx : Rx where
   info pat _ := (exCounts.find? (·.1 == pat)).map (·.2)
   exec pat _ s := (exTable.find? fun e => e.1 == pat && e.2.1 == s).map (·.2.2)
 
-def re (p : Bytes) : Regex := ⟨p, false⟩
+def re (p : Bytes) : Regex := ⟨p, {}⟩
 
 def tplOf (s : Bytes) : Tpl :=
   match parseTpl s false with
